@@ -106,6 +106,10 @@ CHECKS = [
   "for every pair (thorough: also 8 triples) of activities from {VM processing three lines incl. creating and deleting label tuples, Store.Gc with a limit and an expired datum, Collect, HandleJSON, HandleVarz, HandleGraphite, push writer, reload (compile edited source, Store.Add, first line on the new VM)} on one store: all schedules with <=1 (thorough 2) deviations of the instrumented real metrics, datum, exporter and vm code, where every synchronisation operation and every access to a hooked shared field (Metric.LabelValues/labelValuesMap/Source/Limit/Buckets/Keys, LabelValue.Expiry/Value/Labels, Store.Metrics, String.Value, Buckets.Buckets/Count/Sum, VM.runtimeError/terminate/input) is a scheduling point; oracles: no pair of conflicting accesses unordered by the happens-before relation of mtail's own synchronisation (source-level vector clocks; scheduler hand-offs add no edge), no deadlock or panic, the audited counter equals the increments issued, an exported value of it lies in the range it ever held",
   "deviation bound, not full interleaving coverage; memory-order effects on fields that are not hooked are outside the detector; races are identified by field and the pair of (file, function) sites",
   "stateless model checking of the implementation under a controlled scheduler with a source-level happens-before race detector", "§3 C11"),
+ ("C17", "seqx", "exploration",
+  "for each of named pipe, unix and tcp stream sockets, unixgram and udp datagram sockets, on real kernel objects: a cancellation with no writer, and 1-2 writers (thorough 3) with every script of <=2 writes over {complete line, unterminated fragment} ending in close, every interleaving of the scripts, cancellation at the end (single writer and thorough: at every position), in settled mode (wait until the lines completed so far were delivered, and for a pipe's natural end) and burst mode; each event order runs in a crash-isolated worker process and a failure must reproduce three times: newline-terminated data arrives as lines in write order per connection / pipe, the tail of a connection or pipe that its writer closed arrives once, no delivered line mixes bytes of two connections or senders, the output ends after writer close (pipe) or cancellation, all goroutines finish, the process does not crash",
+  "the goroutine schedule inside the stream relative to the kernel (network poller) is NOT controlled: only the order of environment events is exhaustive, so schedule-dependent defects are found when the kernel happens to produce them; framing under all chunkings is C15; stdin shares the fifo code path",
+  "exhaustive enumeration of environment event orders on real kernel objects (not a controlled-scheduler exploration: see level_note)", "§3 C17, §6"),
 ]
 
 ENGINES = [
